@@ -193,6 +193,9 @@ def gen_put_world(rng, profile="mixed"):
         env["XDG_DATA_HOME"] = b""
     elif x < 0.30 and len(vols) > 1:
         env["XDG_DATA_HOME"] = rng.choice(vols[1:]) + b"/xdg"
+    elif x < 0.36:
+        # set and not empty is all the spec asks: a relative value (taken from the current directory), blanks
+        env["XDG_DATA_HOME"] = rng.choice([b"xdg-rel", b"./.xdg", b" ", home + b"/data ", b" " + home.lstrip(b"/")])
     if rng.random() < 0.05:
         del env["HOME"]
     opts = {}
@@ -391,18 +394,21 @@ def gen_put_world(rng, profile="mixed"):
 # worlds with populated trash directories (list / restore / empty / rm)
 # ---------------------------------------------------------------------------------------------------
 
-DATES = ["2000-01-01T00:00:00\x0c", "2000-01-01T00:00:00\x1d", "2000-01-01T00:00:00\x0b", "2020-01-01T00:00:00", "2024-02-29T23:59:59", "2024-03-01T12:00:00", "2024-03-01T12:00:01", "2024-03-02T12:00:00",
+DATES = ["9999-12-31T23:59:59", "9999-12-25T00:00:00", "2000-01-01T00:00:00\x0c", "2000-01-01T00:00:00\x1d", "2000-01-01T00:00:00\x0b", "2020-01-01T00:00:00", "2024-02-29T23:59:59", "2024-03-01T12:00:00", "2024-03-01T12:00:01", "2024-03-02T12:00:00",
          "2023-12-31T00:00:00", "1999-12-31T23:59:59", "2030-06-15T08:30:00", "2024-3-1T9:5:7", "2024-03-01t12:00:00",
          "2001-01-01T12:00:00+0100", "2001-01-01T12:00:00Z", "2001-01-01T12:00:00-05:00", "2001-01-01T12:00:00 UTC"]
 BAD_DATES = ["2024-02-30T00:00:00", "yesterday", "", "2024-03-01", "2024-03-01T12:00:60", "2024-03-01T12:00:00 ", "2002-02-02T02:02:02+0000", "2002-02-02T02:02:02.000"]
 MALFORMED = ["non-trashinfo", "empty", "truncated", "binary", "non-utf8", "no-path", "no-date", "bad-date", "info-only",
-             "orphan", "long-orphan", "odd-stem", "info-is-dir", "info-dangling-link", "dup-keys-crlf", "double-suffix"]
-ORIGIN_NAMES = [b"report.txt", b"a b", b"foo", b"foobar", b"foo.o", b"FOO", b"caf\xc3\xa9", b"x%y", b"new\nline", b"-dash", b"d1",
+             "orphan", "long-orphan", "odd-stem", "info-is-dir", "info-dangling-link", "dup-keys-crlf", "double-suffix", "info-link-outside", "info-link-sibling"]
+ORIGIN_NAMES = [b"report.txt", b"a b", b"foo", b"foobar", b"foo.o", b"FOO", b"notes.trashinfo", b"notes\x0cdraft", b"notes\xe2\x80\xa8final", b"caf\xc3\xa9", b"x%y", b"new\nline", b"-dash", b"d1",
                 b"notes", b"\xff\xfe", b"q?", b"[b]", b"*star", b"...", b"....", b"cafe\xcc\x81"]
 
 
 # 7 levels of 80 three-byte characters: 1.7 KB on disk, 5 KB once percent-encoded in a .trashinfo
 DEEP_AREA = b"".join(b"/" + "\u65e5\u672c".encode() * 40 for _ in range(7))
+
+
+DEEPER_AREA = b"".join(b"/" + "\u65e5\u672c".encode() * 42 + b"%02d" % k_ for k_ in range(11))
 
 
 def truthy_date(x):
@@ -446,8 +452,14 @@ def add_good(rng, w, tdir, base, name, loc, date, sentinel, kinds):
         rec = loc
     from urllib.parse import quote
     q = quote(rec, "/").encode()
+    if rng.random() < 0.6:
+        # other implementations leave such characters raw in the value: form feed, U+2028 are no line ends of a .trashinfo
+        q = q.replace(b"%0C", b"\x0c").replace(b"%E2%80%A8", b"\xe2\x80\xa8")
     style = rng.random()
-    if style < 0.08:
+    if style < 0.03:
+        # 9 KB of another key before Path and DeletionDate (the reader must not stop at a buffer's worth)
+        text = b"[Trash Info]\nX-Comment=" + b"padding " * 1150 + b"\nPath=" + q + b"\nDeletionDate=" + date.encode("latin-1") + b"\n"
+    elif style < 0.08:
         # an old date buried behind an exotic line separator inside another key's value: not a line of its own
         text = (b"[Trash Info]\nX-Note=a" + rng.choice([b"\x1d", b"\x0c", b"\x0b", b"\xc2\x85", b"\xe2\x80\xa8"]) +
                 b"DeletionDate=1990-01-01T00:00:00\nPath=" + q + b"\nDeletionDate=" + date.encode("latin-1") + b"\n")
@@ -504,6 +516,20 @@ def add_malformed(rng, w, tdir, kind, i, good_names=None):
         w.file(tdir + b"/files/" + n, b"p")
     elif kind == "info-dangling-link":
         w.link(info + n + b".trashinfo", b"nowhere")
+    elif kind == "info-link-outside":
+        # the info file is a symbolic link to a well-formed .trashinfo kept elsewhere, next to a files/ directory of its own:
+        # purging the entry unlinks the link and this trash directory's payload, nothing where the link leads
+        w.file(R + b"/outside/archive/records/saved%d.trashinfo" % i, b"[Trash Info]\nPath=" + R + b"/w/saved%d\nDeletionDate=2001-01-01T00:00:00\n" % i)
+        w.file(R + b"/outside/archive/files/saved%d" % i, b"precious: not in any trash directory in scope")
+        w.file(R + b"/outside/archive/files/" + n, b"precious too")
+        w.link(info + n + b".trashinfo", R + b"/outside/archive/records/saved%d.trashinfo" % i)
+        w.file(tdir + b"/files/" + n, b"payload of the linked info")
+    elif kind == "info-link-sibling":
+        # ... or to the info file of a well-formed entry of the same directory
+        good = [x for x in (good_names or []) if info + x + b".trashinfo" in w.nodes and w.nodes[info + x + b".trashinfo"]["k"] == "f"]
+        if good:
+            w.link(info + n + b".trashinfo", rng.choice(good) + b".trashinfo")
+            w.file(tdir + b"/files/" + n, b"payload of the info that is a link to a sibling")
     elif kind == "double-suffix":
         # info/<N>.trashinfo.trashinfo without payload of its own, next to the well-formed entry <N>: old, matches "*"
         good = [x for x in (good_names or []) if info + x + b".trashinfo.trashinfo" not in w.nodes]
@@ -516,7 +542,7 @@ def add_malformed(rng, w, tdir, kind, i, good_names=None):
         w.file(tdir + b"/files/" + n, b"p")
 
 
-def gen_trash_world(rng, cmd, profile="mixed"):
+def gen_trash_world(rng, cmd, profile="mixed", real_clock=None):
     """profile: 'mixed' | 'clean' (well-formed entries only) | 'malformed' (many bad neighbours)"""
     w = W()
     uid = rng.choice([0, 1000, 1000, 65534])
@@ -524,7 +550,10 @@ def gen_trash_world(rng, cmd, profile="mixed"):
     vols = volume_layout(rng, w, uid, profile)
     env = {"HOME": home}
     if rng.random() < 0.2:
-        env["XDG_DATA_HOME"] = rng.choice([home + b"/xdg", b"", home + b"/my.info", R + b"/data/xinfo"])
+        env["XDG_DATA_HOME"] = rng.choice([home + b"/xdg", b"", home + b"/my.info", R + b"/data/xinfo", home + b"/data "])
+    elif rng.random() < 0.06:
+        # neither HOME nor XDG_DATA_HOME (cron, env -i): no home trash directory; the volumes' ones are judged as ever
+        del env["HOME"]
     sentinel = w.file(R + b"/outside/sentinel", b"must survive")
     w.file(R + b"/outside/other", b"also")
     w.dir(R + b"/outside/ro", 0o555)
@@ -532,7 +561,8 @@ def gen_trash_world(rng, cmd, profile="mixed"):
     # the trash dirs the commands may visit
     tdirs = []
     hx_ = (env.get("XDG_DATA_HOME") or home + b"/.local/share") + (b"/Trash")
-    tdirs.append((hx_, None))
+    if "HOME" in env or env.get("XDG_DATA_HOME"):
+        tdirs.append((hx_, None))
     for v in vols:
         top = v + b"/.Trash"
         if top in w.nodes and w.nodes[top]["k"] != "f":
@@ -569,8 +599,11 @@ def gen_trash_world(rng, cmd, profile="mixed"):
     # trash-empty without TRASH_DATE: the real clock, read in the user's time zone (a fixed offset far from UTC).  Dates are
     # ages relative to the moment of the run ("@AGE:<seconds>@", filled in when the world is evaluated, see readcheck),
     # at least three hours away from every whole number of days
-    real_clock = cmd == "empty" and rng.random() < 0.15
-    age_dates = ["@AGE:%d@" % -(k * 86400 + h * 3600) for k in (0, 1, 2, 7, 30) for h in (3, 12, 21)]
+    real_clock = cmd == "empty" and ((rng.random() < 0.15) if real_clock is None else real_clock)
+    rc_days = rng.choice([0, 1, 2, 7, 30])
+    # (most ages sit three hours on either side of the limit the run will use: a clock read in the wrong zone moves them across)
+    age_dates = ["@AGE:%d@" % -(k * 86400 + h * 3600) for k in (0, 1, 2, 7, 30) for h in (3, 12, 21)] + \
+                ["@AGE:%d@" % -(rc_days * 86400 + h * 3600) for h in (3, -3, 5, -5)] * 3
     entries = []
     kinds = []
     k = 0
@@ -585,8 +618,8 @@ def gen_trash_world(rng, cmd, profile="mixed"):
             nm = names[k % len(names)]
             k += 1
             area = (base if base is not None else R) + rng.choice(
-                [b"/w", b"/w/deep/er", b"/home/u/docs", b"/w/caf\xc3\xa9-d", b"/w/cafe\xcc\x81-d", DEEP_AREA] if base is None else
-                [b"/stuff", b"/stuff/sub", b"/stuff/caf\xc3\xa9-d", b"/stuff/cafe\xcc\x81-d", DEEP_AREA])
+                [b"/w", b"/w/deep/er", b"/home/u/docs", b"/w/caf\xc3\xa9-d", b"/w/cafe\xcc\x81-d", DEEP_AREA, DEEPER_AREA] if base is None else
+                [b"/stuff", b"/stuff/sub", b"/stuff/caf\xc3\xa9-d", b"/stuff/cafe\xcc\x81-d", DEEP_AREA, DEEPER_AREA])
             loc = area + b"/" + nm
             tname = nm + rng.choice([b"", b"", b"_1", b"_2"])
             if tdir + b"/info/" + tname + b".trashinfo" in w.nodes:
@@ -607,8 +640,16 @@ def gen_trash_world(rng, cmd, profile="mixed"):
             w.file(tdir + b"/directorysizes", b"4096 1600000000 gone-dir\n120 1600000001 also%20gone\nnot a line\n")
         nbad = {"clean": 0, "mixed": rng.choice([0, 0, 1, 2]), "malformed": rng.choice([2, 3, 5])}[profile]
         for j in range(nbad):
-            add_malformed(rng, w, tdir, rng.choice(MALFORMED), 100 * len(entries) + j,
+            # (an info file that is a link to a sibling's couples the two entries once one of them is purged - the recorded
+            #  C14 finding; for the commands that do not purge it is simply one more entry with the same location and date)
+            kinds_ok = [k_ for k_ in MALFORMED if k_ != "info-link-sibling" or cmd in ("list", "restore")]
+            add_malformed(rng, w, tdir, rng.choice(kinds_ok), 100 * len(entries) + j,
                           good_names=[e["name"] for e in entries if e["tdir"] == tdir])
+        for e in [e for e in entries if e["tdir"] == tdir]:
+            for p_, n_ in list(w.nodes.items()):
+                if n_["k"] == "l" and p_.startswith(tdir + b"/info/") and n_["target"] == e["name"] + b".trashinfo" \
+                        and not any(x["tdir"] == tdir and x["name"] == p_[len(tdir) + 6:-10] for x in entries):
+                    entries.append(dict(e, name=p_[len(tdir) + 6:-10], dup=True, via_link=True))
     # canonically equivalent but different names: two entries whose names, and two whose directories, differ only in the
     # Unicode normalisation form (NFC / NFD).  They are different paths.
     nf_pair = []
@@ -625,6 +666,16 @@ def gen_trash_world(rng, cmd, profile="mixed"):
             e = {"tdir": tdir, "name": tn, "loc": loc, "rec": rec, "date": date, "base": base}
             entries.append(e)
             nf_pair.append(e)
+    crowded = False
+    if cmd == "restore" and made and rng.random() < 0.06:
+        tdir, base = rng.choice(made)
+        area = (base if base is not None else R) + b"/crowd"
+        for j in range(13):
+            tn = b"crowd%02d" % j
+            date = "2022-02-%02dT10:00:00" % (j + 1)
+            rec = add_good(rng, w, tdir, base, tn, area + b"/" + tn, date, sentinel, kinds)
+            entries.append({"tdir": tdir, "name": tn, "loc": area + b"/" + tn, "rec": rec, "date": date, "base": base})
+        crowded = True
     # the same location recorded twice, once with a date and once without a readable one: a sort key built from both
     # fields must order them all the same
     undated_twin = False
@@ -679,6 +730,8 @@ def gen_trash_world(rng, cmd, profile="mixed"):
         n = len(entries)
         reply = rng.choice([b"0", b"0", b"1", b"0-1", b"0,1", b"1,0", b"", b"x", b"9", b"0-", b"1-2-3", b" 0 ", b"+1", b"0-%d" % max(n - 1, 0),
                             b"%d" % max(n - 1, 0), b"2,2", b"3-1", b"0,,1"])
+        if crowded:
+            reply = rng.choice([b"2-10", b"9-11", b"9-11,0-1", b"3-12", b"10-12", b"1-10", b"8-9,10", b"2-10,12"])
         stdin = None if rng.random() < 0.05 else reply + b"\n"
     elif cmd == "empty":
         now = rng.choice(["2024-03-02T12:00:00", "2024-03-01T12:00:00", "2024-03-08T12:00:00", "2025-03-01T12:00:00", "2020-01-01T00:00:00"])
@@ -706,7 +759,7 @@ def gen_trash_world(rng, cmd, profile="mixed"):
             off = rng.choice([9, -8, 12, -11, 0])
             env["TZ"] = b"XXX%+d" % -off           # POSIX TZ: "XXX-9" is nine hours EAST of Greenwich
             opts["realClock"] = {"utcOffsetHours": off}
-            opts["days"] = rng.choice([0, 1, 2, 7, 30]) if "days" in opts or rng.random() < 0.8 else None
+            opts["days"] = rc_days if "days" in opts or rng.random() < 0.85 else None
             if opts["days"] is None:
                 del opts["days"]
         if not opts.get("ttyDefault") and rng.random() < 0.25:
@@ -755,6 +808,11 @@ def gen_fault_world(rng, where=None, force=None):
             w.dir(R + b"/vol1/.Trash", 0o777)
         elif where == "custom":
             opts["trashDir"] = R + b"/vol1/ct"
+        elif where == "fallback":
+            # the volume's .Trash-$uid is usable; when a fault strikes there, the home trash of the other volume takes over
+            # by way of the home fallback (a copy) - with the location recorded as the home trash records it
+            opts["homeFallback"] = True
+            env["TRASH_ENABLE_HOME_FALLBACK"] = b"1"
     w.dir(d)
     name = rng.choice([b"f", b"a b", b"caf\xc3\xa9"])
     kind = make_entry(rng, w, d, name, rng.choice(["file", "tree", "link-file", "link-dangling", "empty"]))
